@@ -20,9 +20,17 @@ NO_MB = {"VERIF_MB_KEYS": "0"}
 
 # suites: (name, cases quick, cases thorough[, extra environment])
 PROPS = {
+    "C03": {
+        "suites": [("proc", 250, 2500), ("apply", 100, 1000)],
+        "title": "global invariant over all reachable states: every entry of every copy is a write of the owner with that version; max version, watermark and heartbeat never exceed the owner's; messages carry only owner writes",
+    },
     "C04": {
         "suites": [("apply", 300, 3000), ("proc", 100, 1000), ("kv", 100, 600)],
         "title": "frontier monotonicity of apply_delta / cluster apply for every grammar-valid delta; fresh versions of local writes; copy invariant inductive",
+    },
+    "C05": {
+        "suites": [("proc", 250, 2500)],
+        "title": "in every reachable state, delivering any message ever sent leaves the node's own copy unchanged but for heartbeat+1; the owner is the most advanced copy of its own state",
     },
     "C06": {
         "suites": [("kv", 300, 3000), ("proc", 60, 600)],
